@@ -109,3 +109,263 @@ class UpdateStatus:
     def post_conflict_flag(self):
         return self.conflicting() == exists(str, str, lambda i, j: i != j and i in self.running_identifiers
                                             and j in self.running_identifiers)
+
+
+# ------------------------------------------------------------------------------------------ payload shapes
+SUPERVISOR_INFO_KEYS = ('name', 'group', 'state', 'statename', 'start', 'stop', 'now', 'pid', 'description', 'spawnerr',
+                        'expected', 'now_monotonic', 'start_monotonic', 'stop_monotonic', 'startsecs', 'stopwaitsecs',
+                        'extra_args', 'disabled', 'program_name', 'process_index', 'has_stdout', 'has_stderr')
+EVENT_KEYS = ('state', 'now', 'now_monotonic', 'extra_args', 'expected', 'spawnerr')
+
+
+def not_an_entry(p, payload):
+    return forall(str, lambda j: implies(j in p.info_map, p.info_map[j] is not payload))
+
+
+def mtimes_in_the_past(p):
+    """every recorded reception time was read from the monotonic clock earlier"""
+    return forall(str, lambda j: implies(j in p.info_map, p.info_map[j]['local_mtime'] <= clock()))
+
+
+def listing_transition(p, old_p, identifier, s):
+    """statement: listed exactly where the last report is running-like; STOPPING stays listed until a stopped state"""
+    return forall(str, lambda i: (i in p.running_identifiers) == (
+        ite(i == identifier,
+            s in R or (s == ProcessStates.STOPPING and i in old_p.running_identifiers),
+            i in old_p.running_identifiers)))
+
+
+def other_entries_untouched(p, old_p, identifier):
+    """statement: '... without touching the other instances' entries'"""
+    return forall(str, lambda j: implies(j != identifier,
+                                         (j in p.info_map) == (j in old_p.info_map)
+                                         and implies(j in p.info_map, p.info_map[j] is old_p.info_map[j])))
+
+
+PROCESS_FIELDS_MODIFIED = ('_state', 'expected_exit', 'running_identifiers', 'last_event_mtime', 'forced_state',
+                           'forced_reason', '_extra_args', '_program_name', '_process_index')
+
+
+@contract('process:ProcessStatus.add_info', props=['C11', 'C12'])
+class AddInfo:
+    """snapshot of one instance (handshake / process added): same synthesis as an event"""
+    raises = ()
+
+    def modifies(self, payload):
+        return [field(self, f) for f in PROCESS_FIELDS_MODIFIED] + [
+            contents(self.info_map), contents(self.running_identifiers), contents(payload)]
+
+    def pre_invariant(self):
+        return I11(self)
+
+    def pre_payload(self, payload):
+        return all(k in payload for k in SUPERVISOR_INFO_KEYS) and not_an_entry(self, payload)
+
+    def pre_clock(self):
+        return mtimes_in_the_past(self)
+
+    def post_invariant(self):
+        return I11_nonempty(self) and mtimes_in_the_past(self)
+
+    def post_entry(self, identifier, payload):
+        return identifier in self.info_map and self.info_map[identifier] is payload
+
+    def post_last_report(self, identifier, payload, old):
+        return self.info_map[identifier]['state'] == old.payload['state']
+
+    def post_listing(self, identifier, payload, old):
+        return listing_transition(self, old.self, identifier, old.payload['state'])
+
+    def post_others_untouched(self, identifier, old):
+        return other_entries_untouched(self, old.self, identifier)
+
+    def post_forced_state(self, payload, old):
+        """a forced state is only kept across a snapshot saying STOPPED (default state of a Supervisor just started)"""
+        return self.forced_state == ite(old.payload['state'] == ProcessStates.STOPPED, old.self.forced_state, None)
+
+
+@contract('process:ProcessStatus.update_info', props=['C11', 'C12'])
+class UpdateInfo:
+    """process event received from instance `identifier`"""
+    raises = ()
+
+    def modifies(self, identifier):
+        return [field(self, f) for f in PROCESS_FIELDS_MODIFIED] + [
+            contents(self.running_identifiers), contents(self.info_map[identifier])]
+
+    def pre_invariant(self):
+        return I11_nonempty(self)
+
+    def pre_known(self, identifier):
+        return identifier in self.info_map
+
+    def pre_payload(self, payload):
+        return all(k in payload for k in EVENT_KEYS) and not_an_entry(self, payload)
+
+    def pre_clock(self):
+        return mtimes_in_the_past(self)
+
+    def post_invariant(self):
+        return I11_nonempty(self) and mtimes_in_the_past(self)
+
+    def post_last_report(self, identifier, payload):
+        return (self.info_map[identifier]['state'] == payload['state']
+                and self.info_map[identifier]['expected'] == payload['expected'])
+
+    def post_listing(self, identifier, payload, old):
+        return listing_transition(self, old.self, identifier, payload['state'])
+
+    def post_others_untouched(self, identifier, old):
+        return other_entries_untouched(self, old.self, identifier) and self.info_map[identifier] is old.self.info_map[identifier]
+
+    def post_forced_state_reset(self):
+        """statement: 'a state forced by Supvisors overrides the display until the next event received'"""
+        return self.forced_state is None
+
+    def post_most_recent_stopped_state_shown(self, identifier, payload):
+        """statement: 'when it runs nowhere ... the stopped-like state most recently received' (strictly most recent)"""
+        return implies(forall(str, lambda i: i not in self.running_identifiers)
+                       and not exists(str, lambda i: i in self.info_map and self.info_map[i]['state'] == ProcessStates.STOPPING)
+                       and forall(str, lambda j: implies(j in self.info_map and j != identifier,
+                                                         self.info_map[j]['local_mtime'] < self.info_map[identifier]['local_mtime'])),
+                       self._state == payload['state'] and self.expected_exit == payload['expected'])
+
+
+@contract('process:ProcessStatus.invalidate_identifier', props=['C11', 'C07', 'C06'])
+class InvalidateIdentifier:
+    """statement: 'losing an instance turns what ran there into FATAL without touching the other instances' entries'"""
+    raises = ()
+
+    def modifies(self, identifier):
+        return [field(self, f) for f in PROCESS_FIELDS_MODIFIED] + [
+            contents(self.running_identifiers), contents(self.info_map[identifier])]
+
+    def pre_invariant(self):
+        return I11(self) and mtimes_in_the_past(self)
+
+    def post_invariant(self):
+        return I11(self) and mtimes_in_the_past(self)
+
+    def post_not_listed(self, identifier):
+        return identifier not in self.running_identifiers
+
+    def post_fatal_if_was_listed(self, identifier, old):
+        return implies(identifier in old.self.running_identifiers,
+                       self.info_map[identifier]['state'] == ProcessStates.FATAL
+                       and not self.info_map[identifier]['expected'])
+
+    def post_untouched_if_not_listed(self, identifier, old):
+        return implies(identifier not in old.self.running_identifiers,
+                       self._state == old.self._state and self.forced_state == old.self.forced_state
+                       and implies(identifier in self.info_map,
+                                   self.info_map[identifier]['state'] == old.self.info_map[identifier]['state']))
+
+    def post_others(self, identifier, old):
+        return (other_entries_untouched(self, old.self, identifier)
+                and forall(str, lambda j: implies(j != identifier,
+                                                  (j in self.running_identifiers) == (j in old.self.running_identifiers))))
+
+    def post_result(self, identifier, result, old):
+        return result == (identifier in old.self.running_identifiers
+                          and forall(str, lambda j: j not in self.running_identifiers))
+
+
+@contract('process:ProcessStatus.remove_identifier', props=['C11'])
+class RemoveIdentifier:
+    """the program disappeared from instance `identifier` (update_numprocs): its report no longer exists"""
+    raises = ()
+
+    def modifies(self, identifier):
+        return [field(self, f) for f in PROCESS_FIELDS_MODIFIED] + [contents(self.info_map), contents(self.running_identifiers)]
+
+    def pre_invariant(self, identifier):
+        return I11_nonempty(self) and identifier in self.info_map
+
+    def post_removed(self, identifier, old):
+        return (identifier not in self.info_map
+                and forall(str, lambda j: implies(j != identifier, (j in self.info_map) == (j in old.self.info_map)
+                                                  and implies(j in self.info_map, self.info_map[j] is old.self.info_map[j]))))
+
+    def post_invariant(self):
+        """listed exactly on instances whose last report is running-like: an instance without report is not listed"""
+        return I11(self)
+
+    def post_result(self, result):
+        return result == (not exists(str, lambda j: j in self.info_map))
+
+
+@contract('process:ProcessStatus.force_state', props=['C11', 'C10'])
+class ForceState:
+    """statement: 'a state forced by Supvisors (start/stop given up) overrides the display ..., is dismissed if newer
+    information from the targeted instance has already arrived'"""
+    raises = ()
+
+    def modifies(self):
+        return [field(self, 'forced_state'), field(self, 'forced_reason'), field(self, 'last_event_mtime')]
+
+    def pre_invariant(self):
+        return I11(self)
+
+    def pre_event(self, event):
+        return 'identifier' in event and 'now_monotonic' in event and 'state' in event and 'spawnerr' in event
+
+    def post_applied_iff_not_outdated(self, event, result):
+        return result == (event['identifier'] not in self.info_map
+                          or self.info_map[event['identifier']]['event_time'] <= event['now_monotonic'])
+
+    def post_forced(self, event, result, old):
+        return ite(result,
+                   self.forced_state == event['state'] and self.forced_reason == event['spawnerr'],
+                   self.forced_state == old.self.forced_state and self.forced_reason == old.self.forced_reason)
+
+    def post_display(self, event, result):
+        return implies(result, self.displayed_state == event['state'])
+
+
+@contract('process:ProcessStatus.displayed_state[getter]', props=['C11'])
+class DisplayedState:
+    raises = ()
+
+    def modifies(self):
+        return []
+
+    def post_forced_overrides(self, result):
+        return result == ite(self.forced_state is None, self._state, self.forced_state)
+
+
+@contract('process:ProcessStatus.update_times', props=['C11'])
+class UpdateTimes:
+    """a tick of the instance refreshes the times of its entry: no effect on the synthesis"""
+    raises = ()
+
+    def modifies(self, identifier):
+        return [contents(self.info_map[identifier])]
+
+    def pre_invariant(self):
+        return I11(self)
+
+    def post_invariant(self):
+        return I11(self)
+
+    def post_state_untouched(self, identifier, old):
+        return implies(identifier in self.info_map,
+                       self.info_map[identifier]['state'] == old.self.info_map[identifier]['state']
+                       and self.info_map[identifier]['local_mtime'] == old.self.info_map[identifier]['local_mtime']
+                       and self.info_map[identifier]['event_time'] == old.self.info_map[identifier]['event_time'])
+
+
+@contract('process:ProcessStatus.update_disability', props=['C11'])
+class UpdateDisability:
+    raises = ()
+
+    def modifies(self, identifier):
+        return [contents(self.info_map[identifier])]
+
+    def pre_invariant(self):
+        return I11(self)
+
+    def post_invariant(self):
+        return I11(self)
+
+    def post_disabled(self, identifier, disabled):
+        return implies(identifier in self.info_map, self.info_map[identifier]['disabled'] == disabled)
